@@ -107,7 +107,7 @@ class Effects(object):
 
     # summary: dict(writes=set, frees=set, moves=set, ret=set, stores=set)
     def empty(self):
-        return dict(writes=set(), frees=set(), moves=set(), ret=set(), stores=set())
+        return dict(writes=set(), frees=set(), moves=set(), ret=set(), stores=set(), reads=set())
 
     def ext_summary(self, name):
         s = self._ext_cache.get(name)
@@ -165,6 +165,13 @@ class Effects(object):
                     s['writes'].add(j)
             # returned pointers may point into any pointer argument
             s['ret'] = set(('p', j) for j, ty in enumerate(params) if is_ptr(ty)) | {'ext'}
+        if not s['reads']:
+            if self.m.has(name):
+                s['reads'] = set(j for j, p in enumerate(self.m.func(name).params) if is_ptr(p['ty']))
+            elif name in self.m.decls:
+                s['reads'] = set(j for j, p in enumerate(self.m.decls[name]['params']) if is_ptr(p['ty']))
+            if name in ('_Znam', '_Znwm', '_ZdaPv', '_ZdlPv', '__cxa_allocate_exception', '__cxa_free_exception', '__cxa_throw'):
+                s['reads'] = set()
         self._ext_cache[name] = s
         return s
 
@@ -275,6 +282,11 @@ class Effects(object):
                         add(i.id, pv(i.a[1]))
                         add(i.id, pv(i.a[2]))
                 elif op == 'load':
+                    for o in pv(i.a[0]):
+                        if o[0] == 'p':
+                            res['reads'].add(o[1])
+                            if want_detail:
+                                detail.append((i, 'load', o[1]))
                     if is_ptr(i.ty):
                         s = set()
                         for o in pv(i.a[0]):
@@ -315,6 +327,13 @@ class Effects(object):
                                             detail.append((i, 'call ' + self.m.dem(t)[:90], o[1]))
                                     elif o[0] == 'g' or (o[0] == 'gd' and not self.m.globals.get(o[1], {}).get('decl', True)):
                                         res['stores'].add(('G', o[1]))
+                        for j in cs['reads']:
+                            if j < len(args):
+                                for o in pv(args[j]):
+                                    if o[0] == 'p':
+                                        res['reads'].add(o[1])
+                                        if want_detail:
+                                            detail.append((i, 'rcall ' + self.m.dem(t)[:90], o[1]))
                         for j in cs['frees']:
                             if j < len(args):
                                 for o in pv(args[j]):
@@ -368,4 +387,18 @@ class Effects(object):
         """List the instructions that make `name` write through / move from parameter `param`."""
         f = self.m.func(name)
         res, detail, prov = self.analyse(f, want_detail=True)
-        return [(i, kind) for (i, kind, p) in detail if p == param]
+        return [(i, kind) for (i, kind, p) in detail if p == param and not (kind == 'load' or kind.startswith('rcall '))]
+
+    def events(self, name):
+        """Per-instruction effect events of a function: list of (inst, kind, param) in block order,
+        kind in store | call <callee> | move <callee> | load | rcall <callee>."""
+        f = self.m.func(name)
+        res, detail, prov = self.analyse(f, want_detail=True)
+        seen = set()
+        out = []
+        for (i, kind, p) in detail:
+            k = (i.id, kind, p)
+            if k not in seen:
+                seen.add(k)
+                out.append((i, kind, p))
+        return out
